@@ -1,11 +1,18 @@
 /-
 C18 — property theorems about the model of the sequence-type judgements (namespace EPV.C18).
-The tables are a parameter `tb`; `EPV.Props.C18Tables` proves the hypotheses for the generated tables.
+
+The generated tables are a parameter `tb`; the hypotheses `tb.Trans` (issubclass is transitive) and
+`tb.InstUp` (isinstance is closed under issubclass) are proved for the live tables in
+`EPV.Props.C18Tables` by `decide +kernel`, where the theorems are also instantiated.
+Every theorem quantifies over all sequence types (`Ty`: unbounded nesting of function / map / array
+tests) and all values (`List Item`: unbounded sequences, maps, arrays).
 -/
-import EPV.Lemmas.SeqTypeRestr
-import EPV.Spec.XPathTypes
+import EPV.Lemmas.SeqTypeInst
+import EPV.Lemmas.SeqTypeSpec
 namespace EPV.C18
 open EPV.SeqType
+
+/-! ## the subtype relation of function tests (`is_sequence_type_restriction`) -/
 
 /-- The subtype relation used for function tests is reflexive: every sequence type is a restriction of itself. -/
 theorem restriction_refl (tb : Tables) (t : Ty) : isRestriction tb t t = true :=
@@ -17,5 +24,150 @@ theorem restriction_trans (tb : Tables) (ht : tb.Trans) (t1 t2 t3 : Ty)
     (h1 : isRestriction tb t1 t2 = true) (h2 : isRestriction tb t2 t3 = true) :
     isRestriction tb t1 t3 = true :=
   isRestriction_trans tb ht t1 t2 t3 h1 h2
+
+/-- test (not a theorem about all inputs): the hypotheses of `restriction_trans` are satisfiable on a
+non-trivial chain  item()* ⊒ function(*)* ⊒ function(*)  -/
+example (tb : Tables) : isRestriction tb (.leaf .item .star) (.leaf .funcAny .star) = true ∧
+    isRestriction tb (.leaf .funcAny .star) (.leaf .funcAny .one) = true := by
+  constructor <;> rfl
+
+/-- FULL statement (`restriction_sound`), false on the current code because of finding F18i:
+  `matchSt S v = ok true → isRestriction T S → matchSt T v = ok true` for all `v`.
+Proved here under the explicit decidable hypothesis "`T` is not a typed function test or `v` contains
+no map and no array" (`trigF18i`-region excluded; `Ty.isTypedFunc T && hasMapArray v = false`).
+The relation is sound for matching: whatever matches a restriction `S` of `T` matches `T`; in
+particular it is contravariant in the parameter types and covariant in the return type of function items.
+The kernel-checked counter-example inside the excluded region is `restriction_sound_counterexample`
+in `EPV.Props.C18Tables`. -/
+theorem restriction_sound_partial (tb : Tables) (ht : tb.Trans) (hu : tb.InstUp) (xsd11 : Bool)
+    (T S : Ty) (v : List Item)
+    (hm : matchSt tb xsd11 true S v = .ok true) (hR : isRestriction tb T S = true)
+    (hF : (T.isTypedFunc && hasMapArray v) = false) :
+    matchSt tb xsd11 true T v = .ok true :=
+  match_sound tb ht hu xsd11 T S v hm hR hF
+
+/-- corollary for function items (what `match_function_test` relies on): a function item whose signature
+passes the test `function(a) as r` also passes every test `function(a') as r'` of which the first is a
+restriction -/
+theorem function_item_test_mono (tb : Tables) (ht : tb.Trans) (hu : tb.InstUp) (xsd11 : Bool)
+    (sa : Tys) (sr : Ty) (a a' : Tys) (r r' : Ty)
+    (hm : matchSt tb xsd11 true (.func a r) [.func sa sr] = .ok true)
+    (hR : isRestriction tb (.func a' r') (.func a r) = true) :
+    matchSt tb xsd11 true (.func a' r') [.func sa sr] = .ok true :=
+  match_sound tb ht hu xsd11 _ _ _ hm hR (by simp [hasMapArray])
+
+/-! ## `match_sequence_type` against XPath 3.1 -/
+
+/-- `match_sequence_type(v, T)` IS SequenceType matching of XPath 3.1 §2.5.5 (item type by the atomic
+type hierarchy of XSD and by the node kind tests, occurrence by cardinality, map / array tests member
+by member, function items by the subtype relation) for every type and value in the domain `domT`:
+atomic type names only (xs:anyType, xs:anySimpleType and list type names are static errors for XPath,
+raised only dynamically by the code), documents with at most one element child, no map / array item
+against a typed function test (F18i).  `SpecAgree` — the isinstance table is derives-from on the XSD
+hierarchy written by hand in the spec — is proved for the live tables by `decide` (`spec_agree`). -/
+theorem match_eq_spec (tb : Tables) (st : SpecTables) (xsd11 : Bool) (ha : SpecAgree tb st xsd11)
+    (t : Ty) (v : List Item) (hd : domT t v = true) :
+    matchSt tb xsd11 true t v = .ok (specMatch st (isRestriction tb) t v) :=
+  matchSt_eq_spec tb st xsd11 ha t v hd
+
+/-- hence the restriction relation is sound for the *specification's* matching as well: on the domain,
+whatever matches a restriction `S` of `T` according to XPath 3.1 matches `T` according to XPath 3.1 -/
+theorem restriction_sound_spec (tb : Tables) (st : SpecTables) (xsd11 : Bool) (ha : SpecAgree tb st xsd11)
+    (ht : tb.Trans) (hu : tb.InstUp) (T S : Ty) (v : List Item)
+    (hdS : domT S v = true) (hdT : domT T v = true)
+    (hm : specMatch st (isRestriction tb) S v = true) (hR : isRestriction tb T S = true)
+    (hF : (T.isTypedFunc && hasMapArray v) = false) :
+    specMatch st (isRestriction tb) T v = true := by
+  have h1 := matchSt_eq_spec tb st xsd11 ha S v hdS
+  rw [hm] at h1
+  have h2 := match_sound tb ht hu xsd11 T S v h1 hR hF
+  rw [matchSt_eq_spec tb st xsd11 ha T v hdT] at h2
+  simpa using h2
+
+/-! ## occurrence indicators -/
+
+/-- `match_sequence_type`: a value matches a non-empty sequence type exactly when the number of its items
+fits the occurrence indicator (one: 1, `?`: ≤ 1, `*`: any, `+`: ≥ 1) and every item passes the item test
+of the type. -/
+theorem occurrence_cardinality_match (tb : Tables) (xsd11 : Bool) (t : Ty) (v : List Item) (h : t ≠ .empty) :
+    matchSt tb xsd11 true t v = .ok true ↔
+      (cardOK t.ownOcc v.length = true ∧ ∀ x ∈ v, itemFn tb xsd11 true t x = .ok true) := by
+  rw [matchSt_eq_seqMatch _ _ _ _ _ h, seqMatch_true]
+
+/-- `instance of`: the `for … else` loop with its early exits answers true exactly when every item passes
+the item test and the number of items fits the occurrence indicator. -/
+theorem occurrence_cardinality (tb : Tables) (xsd11 : Bool) (t : Ty) (v : List Item) (h : t ≠ .empty) :
+    instanceOf tb xsd11 t v = .ok true ↔
+      (cardOK t.ownOcc v.length = true ∧ ∀ x ∈ v, instItem tb xsd11 t x = .ok true) := by
+  cases t with
+  | empty => exact absurd rfl h
+  | _ => simp only [instanceOf, Ty.tokOcc]; exact instLoop_true _ _ _
+
+/-- `empty-sequence()` is matched by the empty sequence only, by all three judgements -/
+theorem empty_sequence_type (tb : Tables) (xsd11 : Bool) (v : List Item) :
+    matchSt tb xsd11 true .empty v = .ok v.isEmpty ∧ instanceOf tb xsd11 .empty v = .ok v.isEmpty := by
+  constructor <;> simp [matchSt, instanceOf]
+
+/-! ## `instance of` and `treat as` -/
+
+theorem any_false_mem {α : Type} (p : α → Bool) : ∀ (l : List α), l.any p = false → ∀ x ∈ l, p x = false := by
+  intro l h x hx
+  simp only [List.any_eq_false] at h
+  simpa using h x hx
+
+theorem docsWellFormed_mem : ∀ (v : List Item), docsWellFormed v = true → ∀ x ∈ v, itemDocOK x = true
+  | [], _, x, hx => by simp at hx
+  | y :: ys, h, x, hx => by
+    rcases List.mem_cons.1 hx with rfl | hx'
+    · cases x with
+      | node k n kids root => cases k <;> simp_all [docsWellFormed, itemDocOK]
+      | _ => rfl
+    · apply docsWellFormed_mem ys _ x hx'
+      cases y with
+      | node k n kids root => cases k <;> simp_all [docsWellFormed]
+      | _ => simpa [docsWellFormed] using h
+
+/-- FULL statement (`instance_of_eq_match`), false on the current code because of finding F18d:
+  `v instance of T` is true exactly when `match_sequence_type(v, T)` is, for all `v`, `T`.
+Proved outside the trigger `trigF18d T v` (a node kind test meeting an item on which the kind-test
+token, evaluated as a self-axis step, looks at attributes / namespaces / the context root) and for
+documents with at most one element child.  Counter-example: `instance_of_counterexample`. -/
+theorem instance_of_eq_match_partial (tb : Tables) (xsd11 : Bool) (t : Ty) (v : List Item)
+    (htr : trigF18d t v = false) (hd : docsWellFormed v = true) :
+    instanceOf tb xsd11 t v = .ok true ↔ matchSt tb xsd11 true t v = .ok true := by
+  by_cases h : t = .empty
+  · subst h; simp [matchSt, instanceOf]
+  · rw [occurrence_cardinality tb xsd11 t v h, occurrence_cardinality_match tb xsd11 t v h]
+    constructor
+    · rintro ⟨hc, hi⟩
+      refine ⟨hc, fun x hx => ?_⟩
+      refine (instItem_iff tb xsd11 t x ?_ (docsWellFormed_mem v hd x hx)).1 (hi x hx)
+      intro l o e; subst e
+      exact any_false_mem _ v (by simpa [trigF18d] using htr) x hx
+    · rintro ⟨hc, hi⟩
+      refine ⟨hc, fun x hx => ?_⟩
+      refine (instItem_iff tb xsd11 t x ?_ (docsWellFormed_mem v hd x hx)).2 (hi x hx)
+      intro l o e; subst e
+      exact any_false_mem _ v (by simpa [trigF18d] using htr) x hx
+
+/-- `V treat as T` returns `V` unchanged exactly when `V instance of T` is true, raises XPDY0050 exactly
+when it is false, and raises the same error otherwise (two separately transcribed loops). -/
+theorem treat_as_identity_or_XPDY0050 (tb : Tables) (xsd11 : Bool) (t : Ty) (v : List Item) :
+    treatAs tb xsd11 t v =
+      (match instanceOf tb xsd11 t v with
+       | .ok true => .ok v
+       | .ok false => .error .XPDY0050
+       | .error e => .error e) := by
+  cases t with
+  | empty => cases v <;> simp [treatAs, instanceOf]
+  | _ => simp only [treatAs, instanceOf]; rw [treatLoop_eq]; simp only [List.nil_append]; rfl
+
+/-- hence: if `treat as` returns a value it is the operand itself -/
+theorem treat_as_returns_operand (tb : Tables) (xsd11 : Bool) (t : Ty) (v w : List Item)
+    (h : treatAs tb xsd11 t v = .ok w) : w = v ∧ instanceOf tb xsd11 t v = .ok true := by
+  rw [treat_as_identity_or_XPDY0050] at h
+  cases hi : instanceOf tb xsd11 t v with
+  | error e => simp [hi] at h
+  | ok b => cases b <;> simp [hi] at h; exact ⟨h.symm, rfl⟩
 
 end EPV.C18
